@@ -297,6 +297,10 @@ func (e *Explorer) runPath(m *Machine, it workItem) {
 		for _, in := range jr.inits {
 			m.callFn(in, nil, nil)
 		}
+		m.globalSlots = nil
+		if opt.MonitorGlobals {
+			m.registerGlobals()
+		}
 		args := make([]Val, len(jr.job.Args))
 		for i, a := range jr.job.Args {
 			args[i] = cInt(uint64(a), 64, true)
